@@ -15,6 +15,8 @@ ASSUMPTIONS = ["finite map (every neighbour label is a node), non-empty trace, f
                "labels ints or short strings without '-'/'_'", "InMemMap backend without index"]
 TOLERANCES = {"pairs_vs_triples": "exact equality of index, path keys, states and log-probability"}
 BUDGET = {"quick": {"shards": 8, "examples": 500}, "thorough": {"shards": 16, "examples": 10000}}
+FUZZ = {"thorough": {"runs": 15000, "seed_inputs": 16, "max_len": 4096,
+                     "include": ("leuvenmapmatching.matcher", "leuvenmapmatching.util", "leuvenmapmatching.map")}}
 
 
 def build(case, trace):
